@@ -7,6 +7,16 @@ Writes <change_dir>/verification.json. The worktree lives under /tmp/vwt and is 
 import json, os, subprocess, sys, shutil, tempfile, xml.etree.ElementTree as ET
 from pathlib import Path
 
+
+def _git_wt(*args, check=False):
+    """git worktree add/remove under a machine-wide file lock (git's worktree bookkeeping is not safe against concurrent add/remove)"""
+    import fcntl
+    os.makedirs("/tmp/vwt", exist_ok=True)
+    with open("/tmp/vwt/.wtlock", "w") as lk:
+        fcntl.flock(lk, fcntl.LOCK_EX)
+        return subprocess.run(["git", "-C", "/repo", "worktree", *args], capture_output=True, text=True, check=check)
+
+
 change_dir = Path(sys.argv[1]); prop = sys.argv[2]; name = sys.argv[3]
 # commits of /repo the stored changes were written for (newest first): round 3, rounds 1+2, before the lazy-logging repair
 BASE_COMMITS = ["51ed23f", "2c61668", "8fb63a3", "1e5babd", "cc14e90", "d3ce8dc"]
@@ -15,8 +25,8 @@ recheck = "--recheck" in sys.argv and (change_dir / "verification.json").exists(
 wt = Path("/tmp/vwt") / name
 wt.parent.mkdir(exist_ok=True)
 if wt.exists():
-    subprocess.run(["git", "-C", "/repo", "worktree", "remove", "--force", str(wt)])
-subprocess.run(["git", "-C", "/repo", "worktree", "add", "-q", "--detach", str(wt), "HEAD"], check=True)
+    _git_wt("remove", "--force", str(wt))
+_git_wt("add", "-q", "--detach", str(wt), "HEAD", check=True)
 env = dict(os.environ, PYTHONPATH=str(wt / "src"), PATH="/venv/bin:" + os.environ["PATH"])
 env.pop("VERIF_REPO", None)
 out = {"property": prop, "name": name}
@@ -103,6 +113,6 @@ try:
     if not recheck:
         out["demo_without_patch_rc"], out["demo_without_patch_tail"] = run_demo()
 finally:
-    subprocess.run(["git", "-C", "/repo", "worktree", "remove", "--force", str(wt)])
+    _git_wt("remove", "--force", str(wt))
     (change_dir / "verification.json").write_text(json.dumps(out, indent=1))
     print(json.dumps({k: v for k, v in out.items() if "tail" not in k}, indent=None)[:900])
